@@ -1,4 +1,4 @@
-CONSTANTS Variant = "std"  MaxSum = 8  MaxIns = 2  MaxPays = 4  MaxFee = 3
+CONSTANTS Variant = "std"  MaxSum = 7  MaxIns = 2  MaxPays = 4  MaxFee = 2
           ScaleKs = {12}  ScaleRs = {0}
 SPECIFICATION Spec
 INVARIANTS TypeOK BuildOK DealInv DoneIsBuild Conservation Positivity AtMostOneApart ErrorIffInsufficient OutcomeOK FeeLemma
